@@ -346,11 +346,11 @@ JudgeArc(s0, cfg, e) ==
              fetB == IsHit(r) /\ dreq = 1 /\ dok = 1 /\ ~MustHit(s0.sr, cc, k)
              netD == IsErr(r, "network") /\ dreq = 1 /\ dfail = 1 /\ ~MustHit(s0.sr, cc, k)
              full == Known("FX04m") /\ IsErr(r, "full") /\ dreq = 1 /\ dok = 1 /\ ~MustHit(s0.sr, cc, k)
-             \* a fetched range MAY have been stored (soft: a later miss is fine, a later hit must be these bytes);
-             \* it is listed unless the list was full (then the fetched bytes were returned without being stored)
+             \* a fetched range is stored and listed, unless the archive's list was full: then the bytes were returned
+             \* and MAY have been stored (soft: a later miss is fine, a later hit must be these bytes)
              mdA  == Dflt(s0.md, e.a, <<>>)
              s1   == IF IsHit(r) /\ dreq = 1
-                     THEN [s0 EXCEPT !.sr = SoftPut(@, k, r.h, r.n, DC(cfg)),
+                     THEN [s0 EXCEPT !.sr = IF AsIsFull(mdA, u, cfg.maxr) THEN SoftPut(@, k, r.h, r.n, DC(cfg)) ELSE PutR(@, k, r.h, r.n, DC(cfg)),
                                      !.md = IF AsIsFull(mdA, u, cfg.maxr) THEN @ ELSE FnWith(@, e.a, AsIsListed(mdA, u))]
                      ELSE s0
          IN Out(s1, {IF hitA \/ fetB \/ netD THEN "ok" ELSE IF full THEN "FX04m" ELSE "bad"})
